@@ -181,8 +181,9 @@ def simStep (H : Bytes → Str) (reps : Array SimRep) (line : JVal) : Array SimR
         else if prim = S "update" then
           match (objGet (S "doc") o) with
           | some (.obj doc) =>
-            (match DState.update H src rep.d doc with
+            (match DState.updateG H src rep.d doc with
              | .ok (d', _) => finishD d' (expectRes true)
+             | .err _ => finish st (expectRes false)
              | x => finish st (S "update: model " ++ classOf x ++ S " impl " ++ res))
           | _ => (reps, S "MISMATCH update without doc")
         else if prim = S "delete" then
@@ -198,8 +199,8 @@ def simStep (H : Bytes → Str) (reps : Array SimRep) (line : JVal) : Array SimR
           | some call, some u =>
             let body := ((objGet (S "obj") o).bind JVal.asObj?).getD []
             let r : Res (DState × Option Str) :=
-              if call = S "create" then DState.createObject H rep.d u body
-              else if call = S "update" then DState.updateObject H src rep.d u body
+              if call = S "create" then DState.createObjectG H rep.d u body
+              else if call = S "update" then DState.updateObjectG H src rep.d u body
               else DState.removeObject H rep.d u
             let ret := fun (x : Option Str) => match x with | some s => jstr s | none => JVal.null
             (match r with
@@ -242,8 +243,15 @@ def simStep (H : Bytes → Str) (reps : Array SimRep) (line : JVal) : Array SimR
             finish st ((if setOk then [] else S "meld wrote " ++ (JVal.arr (got.map jstr)).render ++ S " model expects " ++ (JVal.arr (expectNew.map jstr)).render)
                            ++ (if bytesOk then [] else S " meld bytes differ from the source"))
         else if prim = S "commit" then
+          let infoReq : Option JVal := match objGet (S "info") o with | some (.obj i) => some (.obj i) | _ => none
           if !st.hasStaging then
             finish st (if res = S "none" then [] else S "commit: nothing staged in the model, impl " ++ res)
+          else if DState.commitRefusesInfo infoReq then
+            -- the nesting guard: refused before anything is resolved or written
+            finish st ((if res = S "refused" then [] else S "commit: the model refuses the information (nested too deeply), impl " ++ res)
+                       ++ (if items.isEmpty then [] else S " ; a refused commit wrote items"))
+          else if res = S "refused" then
+            finish st (S "commit: the implementation refused the information as nested too deeply, the model accepts it")
           else
             match DState.autoResolve H src rep.d with
             | .err _ => finish st (S "commit: automatic resolution fails in the model")
